@@ -1711,6 +1711,9 @@ static void emit_text(Obj *prog) {
     if (fn->va_area) {
       int gp = 0, fp = 0;
       for (Obj *var = fn->params; var; var = var->next) {
+        // An empty aggregate takes no register.
+        if (var->ty->size == 0)
+          continue;
         if (is_flonum(var->ty))
           fp++;
         else
